@@ -250,6 +250,7 @@ MANIFEST = dict(
          "keys rollout succeeds and returns a mapping equal as a mapping at every level (rollout_flatten_perm, _perm_ell; "
          "REquiv is reflexive and symmetric on mappings with distinct keys). Tie: the mapping produced by model and code "
          "(incl. insertion order) compared on shuffled flattenings for six separators; search: rollout(flatten(m)) == m "
-         "and identity on the real code.",
+         "and identity on the real code."
+         " Source pins: the normalised text of every anchor file is compared with the text the model was last validated against; a changed file is a broken obligation (no-failing-input-found unless the search finds an input).",
     note="Partial: SepSafe (K9: with a multi-character separator keys can overlap the boundary, 'x:::y' / '::' — flattening is not "
          "injective there). Trusted: Lean kernel + standard axioms, hand model (sampling tie), codec.")
